@@ -69,7 +69,7 @@ pub fn show_themes(dark: bool, light: bool, color_mode: ColorMode) -> std::io::R
                 delta::delta(ByteLines::new(BufReader::new(&input[0..])), writer, &config)
             {
                 match error.kind() {
-                    ErrorKind::BrokenPipe => std::process::exit(0),
+                    ErrorKind::BrokenPipe => return Ok(()),
                     _ => eprintln!("{error}"),
                 }
             }
